@@ -21,6 +21,7 @@ Muts == {Mk("child", "", x, <<y, 0, 0>>, <<>>, <<>>) : x \in Obj, y \in 0..NObj}
         \cup {Mk("s", "clear", x, <<0, 0, 0>>, <<>>, <<>>) : x \in SetOwners}
         \cup {Mk("dl", "setitem", x, <<1, 0, 0, 0>>, q, <<>>) : x \in SetOwners, q \in {<<>>} \cup {<<y>> : y \in Obj}}
         \cup {Mk("addx", "", x, <<0, 0, 0>>, <<>>, <<>>) : x \in SetOwners}
+        \cup {Mk("del", op, x, <<0, 0, 0>>, <<>>, <<>>) : x \in KidsOwners, op \in {"child", "kids", "d", "s", "dl"}}
 Init == h = Empty /\ last = Mk("init", "", 1, <<0, 0, 0>>, <<>>, <<>>)
 Do(m) == /\ (m.t = "kids" => L!Apply(m.op, h.kids[m.x], "id", m.a, m.xs).excs = {""})
          /\ h' = Mutate(h, m) /\ last' = m
